@@ -127,13 +127,30 @@ def _migrate_csv_to_rules(csv_file: str, config_dir: str, backup: bool = True) -
             print(f"      Remove it (or point merchants_file at it) and run the migration again")
             return False
 
-        # Write new file
-        with open(new_file, 'w', encoding='utf-8') as f:
+        # Write new file (to a temporary name first, so an interrupted write never
+        # leaves a truncated merchants.rules behind)
+        tmp_file = new_file + '.tmp'
+        with open(tmp_file, 'w', encoding='utf-8') as f:
             f.write(content)
+        os.replace(tmp_file, new_file)
         print(f"  {C.GREEN}✓{C.RESET} Created: config/merchants.rules")
         print(f"      Converted {len(csv_rules)} merchant rules to new format")
 
-        # Backup old file (never on top of an earlier backup)
+        # Update settings.yaml to reference new file. This happens BEFORE the CSV is
+        # retired: if we stop here (crash, I/O error) the budget still finds rules -
+        # the CSV while settings is unchanged, merchants.rules once it is referenced.
+        settings_path = os.path.join(config_dir, 'settings.yaml')
+        if os.path.exists(settings_path):
+            with open(settings_path, 'r', encoding='utf-8') as f:
+                settings_text = f.read()
+            if 'merchants_file:' not in settings_text:
+                with open(settings_path, 'a', encoding='utf-8') as f:
+                    f.write('\n# Merchant rules file (migrated from CSV)\n'
+                            'merchants_file: config/merchants.rules\n')
+                print(f"  {C.GREEN}✓{C.RESET} Updated: config/settings.yaml")
+                print(f"      Added merchants_file: config/merchants.rules")
+
+        # Backup old file last (never on top of an earlier backup)
         if backup and os.path.exists(csv_file):
             backup_file = csv_file + '.bak'
             n = 1
@@ -142,18 +159,6 @@ def _migrate_csv_to_rules(csv_file: str, config_dir: str, backup: bool = True) -
                 backup_file = f"{csv_file}.bak{n}"
             shutil.move(csv_file, backup_file)
             print(f"  {C.GREEN}✓{C.RESET} Backed up: merchant_categories.csv → {os.path.basename(backup_file)}")
-
-        # Update settings.yaml to reference new file
-        settings_path = os.path.join(config_dir, 'settings.yaml')
-        if os.path.exists(settings_path):
-            with open(settings_path, 'r', encoding='utf-8') as f:
-                content = f.read()
-            if 'merchants_file:' not in content:
-                with open(settings_path, 'a', encoding='utf-8') as f:
-                    f.write('\n# Merchant rules file (migrated from CSV)\n')
-                    f.write('merchants_file: config/merchants.rules\n')
-                print(f"  {C.GREEN}✓{C.RESET} Updated: config/settings.yaml")
-                print(f"      Added merchants_file: config/merchants.rules")
 
         return True
     except Exception as e:
